@@ -1,0 +1,57 @@
+//go:build verif
+
+package tensor
+
+// C03 / C19: contracts for axis permutation and lazy transposition (comment-only).
+
+//@ spec isIdentityN(p, k) bool decreases k = k <= 0 ? true : isIdentityN(p, k-1) && p[k-1] == k-1
+//@ spec inRangeN(p, n, k) bool decreases k = k <= 0 ? true : inRangeN(p, n, k-1) && 0 <= p[k-1] && p[k-1] < n
+//@ spec noRepeatN(p, k) bool = forall i, j :: 0 <= i && i < j && j < k ==> p[i] != p[j]
+//@ spec isPermN(p, n) bool = inRangeN(p, n, n) && noRepeatN(p, n)
+
+//@ func tensor.IsMonotonicInts
+//@   props C03
+//@   mode rank a
+//@   ensures [incr1] (monotonic && incr1 && len(a) > 0 && a[0] == 0) ==> isIdentityN(a, len(a))
+//@   ensures [identity] isIdentityN(a, len(a)) ==> monotonic && incr1
+//@   ensures [incr1_def] monotonic && incr1 ==> (forall i :: 1 <= i && i < len(a) ==> a[i] == a[i-1] + 1)
+//@   assigns nothing
+
+//@ func tensor.UnsafePermute
+//@   props C03
+//@   mode rank pattern
+//@   config fixlen xs=2
+//@   config prune solver
+//@   let n = len(pattern)
+//@   requires [nonneg] forall i :: 0 <= i && i < n ==> pattern[i] >= 0
+//@   requires [sep] xs[0].arr != xs[1].arr && xs[0].arr != pattern.arr && xs[1].arr != pattern.arr && xs.arr != xs[0].arr && xs.arr != xs[1].arr && xs.arr != pattern.arr
+//@   ensures [err_len] (len(xs[0]) != n || len(xs[1]) != n) ==> err != nil
+//@   ensures [err_axis] len(xs[0]) == n && len(xs[1]) == n && !isPermN(pattern, n) ==> err != nil && !typeis(err, "tensor.noopError")
+//@   ensures [noop] len(xs[0]) == n && len(xs[1]) == n && isPermN(pattern, n) && isIdentityN(pattern, n) ==> typeis(err, "tensor.noopError")
+//@   ensures [noop_only] typeis(err, "tensor.noopError") ==> isIdentityN(pattern, n)
+//@   ensures [err_kinds] err != nil && !typeis(err, "tensor.noopError") ==> !implements(err, "tensor.NoOpError")
+//@   ensures [ok] len(xs[0]) == n && len(xs[1]) == n && isPermN(pattern, n) && !isIdentityN(pattern, n) ==> err == nil
+//@   ensures [perm] err == nil ==> len(xs[0]) == n && len(xs[1]) == n && (forall i :: 0 <= i && i < n ==> xs[0][i] == old(xs[0][pattern[i]]) && xs[1][i] == old(xs[1][pattern[i]]))
+//@   ensures [unchanged_on_error] err != nil ==> (forall i :: 0 <= i && i < len(xs[0]) && i < n ==> xs[0][i] == old(xs[0][i])) && (forall i :: 0 <= i && i < len(xs[1]) && i < n ==> xs[1][i] == old(xs[1][i]))
+//@   ensures [pattern_kept] unchanged(pattern)
+//@   assigns whole(xs[0]), whole(xs[1])
+
+//@ func tensor.AP.T
+//@   props C03 C13
+//@   mode rank ap.shape, ap.strides
+//@   let n = len(ap.shape)
+//@   cases len(axes) : 0, n
+//@   requires [dims] forall i :: 0 <= i && i < n ==> ap.shape[i] >= 1
+//@   requires [nonneg] forall i :: 0 <= i && i < len(axes) ==> axes[i] >= 0
+//@   requires [sep] ap.shape.arr != ap.strides.arr && axes.arr != ap.shape.arr && axes.arr != ap.strides.arr
+//@   requires [valid_vec] isVec(ap.shape) && len(axes) == n ==> isPermN(axes, n)
+//@   ensures [arity] len(axes) > 0 && len(axes) != n ==> err != nil && !typeis(err, "tensor.noopError")
+//@   ensures [default_axes] len(axes) == 0 ==> len(a) == n && (forall i :: 0 <= i && i < n ==> a[i] == n - 1 - i)
+//@   ensures [given_axes] len(axes) == n && n > 0 ==> same(a, axes) && len(a) == n
+//@   ensures [noop] (len(axes) == 0 || len(axes) == n) && (allOnes(ap.shape) || isIdentityN(a, n)) ==> typeis(err, "tensor.noopError") && len(retVal.shape) == n && len(retVal.strides) == n && (forall i :: 0 <= i && i < n ==> retVal.shape[i] == ap.shape[i] && retVal.strides[i] == ap.strides[i])
+//@   ensures [bad_axes] len(axes) == n && n >= 2 && !allOnes(ap.shape) && !isVec(ap.shape) && !isPermN(axes, n) ==> err != nil
+//@   ensures [perm] err == nil && n >= 2 && !isVec(ap.shape) ==> len(retVal.shape) == n && len(retVal.strides) == n && (forall i :: 0 <= i && i < n ==> retVal.shape[i] == ap.shape[a[i]] && retVal.strides[i] == ap.strides[a[i]])
+//@   ensures [perm_vector] err == nil && n == 2 && isVec(ap.shape) && isPermN(a, n) ==> (forall i :: 0 <= i && i < n ==> retVal.shape[i] == ap.shape[a[i]] && (retVal.shape[i] > 1 ==> retVal.strides[i] == ap.strides[a[i]]))
+//@   ensures [own] err == nil && n >= 2 ==> fresh(retVal.shape) && fresh(retVal.strides)
+//@   ensures [unchanged] unchanged(ap.shape) && unchanged(ap.strides) && unchanged(axes)
+//@   assigns nothing
